@@ -269,6 +269,8 @@ def execute(plan):
             switch_state["nit"] = int(state.nit)
             switch_state["pairs_after"] = int(np.asarray(state.hess_inv.sk).shape[0]) if np.asarray(state.hess_inv.sk).size else 0
         switch_state.setdefault("verdicts", []).append(judge_pairs(act, state, "callback state nit=%d" % int(state.nit), at_switch))
+        # the live-memory check belongs to the iteration of the rewrite only
+        info["pending_matrix_check"] = False
 
     def on_update(act, a, k, X, G, mats, accepted, pre):
         if not info.get("pending_matrix_check"):
